@@ -1,6 +1,6 @@
 (* Latch/ProofsThm.v — the C17 statements derived from the invariant of reachable states. *)
 From Coq Require Import NArith List Bool Arith Lia Sorting.Sorted.
-From Verif Require Import Latch.Model Latch.ProofsOps Latch.ProofsBase Latch.ProofsInv Latch.ProofsAcq Latch.ProofsRel Latch.ProofsSys Latch.ProofsLive.
+From Verif Require Import Latch.Model Latch.ProofsOps Latch.ProofsBase Latch.ProofsInv Latch.ProofsAcq Latch.ProofsRel Latch.ProofsSys Latch.ProofsLive Latch.ProofsRec.
 Import ListNotations.
 
 Section Thm.
@@ -355,6 +355,60 @@ Proof.
   inversion X; subst. auto.
 Qed.
 
+(* recycling never unlinks (nor changes) the node of a key that has a holder: neither the node a lock owns, nor the
+   node a waiter queues behind while it is held *)
+Lemma recycle_keeps_held L sl t k : qwf L -> holderK L k <> None ->
+  nodeK sf (recycle_slot L sl t) k = nodeK sf L k /\
+  nodeK sf (maybe_recycle L sl t) k = nodeK sf L k.
+Proof.
+  intros Q H.
+  assert (A : nodeK sf (recycle_slot L sl t) k = nodeK sf L k).
+  { rewrite recycle_nodeK by auto. destruct (N.eqb (sf k) sl); auto.
+    unfold ProofsOps.holderK in H. destruct (nodeK sf L k) as [n|]; auto.
+    unfold keep_node. destruct (nval n); [auto | congruence]. }
+  split; auto. unfold maybe_recycle. destruct (Nat.leb _ _); auto.
+Qed.
+Lemma recycle_keeps_refs s : reach_any s ->
+  (forall i k sl t, In k (held (locks (lat s) i)) ->
+     nodeK sf (recycle_slot (lat s) sl t) k = nodeK sf (lat s) k /\
+     nodeK sf (maybe_recycle (lat s) sl t) k = nodeK sf (lat s) k) /\
+  (forall w k sl t, In w (waitS (lat s) (sf k)) -> key_at (locks (lat s) w) = Some k -> holderK (lat s) k <> None ->
+     nodeK sf (recycle_slot (lat s) sl t) k = nodeK sf (lat s) k /\
+     nodeK sf (maybe_recycle (lat s) sl t) k = nodeK sf (lat s) k) /\
+  (forall sl t w sl', In w (waitS (lat s) sl') -> In w (waitS (recycle_slot (lat s) sl t) sl')).
+Proof.
+  intros R. destruct (any_Inv s R) as [[I _] _]. pose proof (i_q _ _ _ _ _ _ _ _ I) as Q. repeat split.
+  - apply recycle_keeps_held; auto. apply (i_hold _ _ _ _ _ _ _ _ I) in H. congruence.
+  - apply recycle_keeps_held; auto. apply (i_hold _ _ _ _ _ _ _ _ I) in H. congruence.
+  - apply recycle_keeps_held; auto.
+  - apply recycle_keeps_held; auto.
+  - intros sl t w sl' X. rewrite recycle_waitS. auto.
+Qed.
+
+(* ---------- stale, complete, with the recycle rule in the system ---------- *)
+Lemma any_recok s : reach_any s -> rec_ok (glog (lat s)).
+Proof. intros R. eapply reachable_recok with (KP := anyk); eauto; unfold anyk; auto. Qed.
+
+Lemma stale_complete_window s i k : reach_any s -> lstale (locks (lat s) i) = false ->
+  In k (held (locks (lat s) i)) ->
+  exists h1 h2, glog (lat s) = h1 ++ EAcq k i :: h2 /\
+    forall j c, In (ERel k j c) h2 ->
+      (c <= lstart (locks (lat s) i))%N \/
+      exists cur m, In (ERecycle k cur m) h2 /\ (c <= m)%N /\ (phys m + expire_ms <= phys cur)%N /\
+                    ((lstart (locks (lat s) i) < c)%N -> (phys (lstart (locks (lat s) i)) + expire_ms <= phys cur)%N).
+Proof.
+  intros R S H. destruct (stale_complete s i k R S H) as (h1 & h2 & E & F).
+  exists h1, h2. split; auto. intros j c X.
+  destruct (rel_live_or_recycled _ _ _ _ X) as [A|(a & cur & m & b & E2 & B)]; [left; auto|].
+  right. exists cur, m.
+  assert (RO := any_recok s R). rewrite E, E2 in RO.
+  destruct (RO ((h1 ++ [EAcq k i]) ++ a) k cur m b) as [EXP DOM].
+  { rewrite <- !app_assoc. reflexivity. }
+  split; [rewrite E2; apply in_or_app; right; left; auto|].
+  split; [auto|]. split; [auto|].
+  intros LT. pose proof (DOM c B). assert (PM : (phys (lstart (locks (lat s) i)) <= phys m)%N) by (apply phys_mono; lia). lia.
+Qed.
+
 (* ---------- the composite release() is the iteration of the atomic LRel steps ---------- *)
 Lemma release_step_facts s i wl L1 r1 : reach_any s -> sch s = SRel i wl -> release_slot sf (lat s) i = (L1, r1) ->
   r1 <> RPanic /\ S (lacq (locks L1 i)) = lacq (locks (lat s) i).
@@ -442,6 +496,14 @@ Definition tr_finish : list label :=
 Definition tr_closed : list label :=
   [LStart 0 [2;1]%N 1%N; LStart 1 [2]%N 2%N; LAcq 0; LAcq 0; LAcq 1; LClose; LUnlock 0 5%N].
 
+(* H = lock 0 holds key 1, locks 1 and 2 wait for it; H releases (lock 1 picked, wake-up pending); a recycle with a
+   timestamp 3.5 minutes later drops the node of key 1 although lock 2 still waits for that key *)
+Definition ts_3u : ts := 55050240000%N.
+Definition tr_waited : list label :=
+  [LStart 0 [1]%N 1%N; LStart 1 [1]%N 5%N; LStart 2 [1]%N 6%N; LAcq 0; LAcq 1; LAcq 2; LUnlock 0 2%N; LPop; LRel].
+Definition tr_waited_rest : list label :=
+  [LRecycle 0%N ts_3u; LWake; LTrig; LUnlock 1 7%N; LPop; LRel; LWake; LTrig; LUnlock 2 0%N; LPop; LRel; LTrig].
+
 Lemma allowed_tr_finish : Forall (allowed (@NoDup key)) tr_finish.
 Proof. repeat constructor; simpl; auto; intros [H|[]]; discriminate. Qed.
 
@@ -477,4 +539,24 @@ Proof.
   - simpl in E. discriminate.
   - simpl in E. discriminate.
   - simpl in E. discriminate.
+Qed.
+
+Lemma recycle_waited_node_witness :
+  exists s, run sf0 1 tr_waited init_state = Some s /\ reach_any sf0 1 s /\
+    In 2 (waitS (lat s) (sf0 1%N)) /\ key_at (locks (lat s) 2) = Some 1%N /\
+    nodeK sf0 (lat s) 1%N = Some (mkNode 1%N 2%N None) /\
+    nodeK sf0 (recycle_slot (lat s) 0%N ts_3u) 1%N = None.
+Proof.
+  destruct (run sf0 1 tr_waited init_state) as [s|] eqn:E; [|vm_compute in E; discriminate].
+  exists s. split; auto. split.
+  { apply reach_reach_any. eapply run_reach; [apply r_init | | exact E]. repeat constructor; simpl; auto; intros []. }
+  vm_compute in E. inversion E; subst s; clear E. vm_compute. repeat split; auto.
+Qed.
+
+Lemma recycle_waited_node_refuted :
+  exists sf ns s w k sl t, reach_any sf ns s /\ In w (waitS (lat s) (sf k)) /\ key_at (locks (lat s) w) = Some k /\
+    nodeK sf (lat s) k <> None /\ nodeK sf (recycle_slot (lat s) sl t) k = None.
+Proof.
+  destruct recycle_waited_node_witness as (s & _ & R & W & K & N & D).
+  exists sf0, 1%N, s, 2, 1%N, 0%N, ts_3u. repeat split; auto. rewrite N. discriminate.
 Qed.
